@@ -14,7 +14,7 @@ RULE = ("seeded gen_coords runs over generated topologies (1-3 molecule types: s
         "(schedule signature, event-log digest)")
 ASSUMPTIONS = wa.ASSUMPTIONS
 REAL_VS_STUB = wa.REAL_VS_STUB
-PROBES = wa.PROBES + ["cwd_with_decoy_includes", "earlier_call_same_topology_paths", "user_grid", "start_option", "coords_supplied", "density_box", "build_file", "include_in_ifdef_else", "resid_restart_inside_molecule", "pdb_input_without_box_record"]
+PROBES = wa.PROBES + ["cwd_with_decoy_includes", "earlier_call_same_topology_paths", "user_grid", "start_option", "coords_supplied", "density_box", "build_file", "include_in_ifdef_else", "resid_restart_inside_molecule", "pdb_input_without_box_record", "default_grid_reaches_box_face"]
 PROFILE = {"p_pdb": 0.45, "p_pdb_nobox": 0.6}
 
 
@@ -50,12 +50,27 @@ def gen_job(verif_seed, tier, index):
         if jobgen.add_pre_variant(job, g, "shorter"):
             job["cwd_decoy"] = job.pop("pre_spec")
             job.pop("pre_kind", None)
+    if job.get("coord_text") is None and not job["opts"].get("start") and g.random() < 0.1:
+        # a [ molecules ] line with count 0 (script-written topologies): contributes no molecule, no atoms, no mass
+        spec = job["spec"]
+        nm = g.choice([m["name"] for m in spec["moltypes"]])
+        spec["molecules"].insert(g.randint(0, len(spec["molecules"])), [nm, 0])
+        job["zero_count_entry"] = True
     if job.get("coord_text") is None and "density" in job["opts"] and g.random() < 0.3:
         jobgen.add_alias_other_masses(job, g)
     if (not job.get("pre_spec") and not job.get("cwd_decoy") and g.random() < 0.12
             and len(job["spec"]["moltypes"]) >= 2 and job.get("coord_text") is None):
         jobgen.add_cond_include(job, g)
-    if job.get("coord_text") is None:
+    if job.get("coord_text") is None and not job.get("build_spec") and g.random() < 0.04:
+        # a box edge that is an exact floating-point multiple of the grid spacing (11 x 0.37 = 4.07): numpy's mgrid
+        # then includes the end point, a start point ON the upper box face
+        k = g.choice([11, 22])
+        edge = round(k * 0.37, 2)
+        job["opts"].pop("density", None)
+        job["opts"]["box"] = [edge, edge, edge]
+        job["opts"]["grid_spacing"] = 0.37
+        job["grid_point_on_box_face"] = True
+    elif job.get("coord_text") is None:
         if g.random() < 0.2:
             jobgen.add_user_grid(job, g)
         if g.random() < 0.25:
@@ -73,6 +88,8 @@ def _tag(job, res):
         p["resid_restart_inside_molecule"] = 1
     if job.get("pdb_no_box"):
         p["pdb_input_without_box_record"] = 1
+    if job.get("grid_point_on_box_face"):
+        p["default_grid_reaches_box_face"] = 1
     if job["spec"].get("cond_include"):
         p["include_in_ifdef_else"] = 1
     if job.get("coord_text") is not None:
